@@ -27,6 +27,10 @@ def demo : List Ev := [
 theorem demo_runs : ∃ s, run (init 0) demo = some s ∧ s.lockHist = [c2, c1, c0] ∧ s.pubHist = [c2, c1, c0] ∧ s.acks.length = 1 := by
   refine ⟨_, rfl, rfl, rfl, rfl⟩
 
+theorem demo_untampered : ∃ s, run (init 0) demo = some s ∧ s.tampered = false ∧
+    s.store .ckpt = some (.ck c2, false) ∧ s.store (.tile ⟨.data, 0, 1⟩) = some (.slice c1.leaves, true) := by
+  refine ⟨_, rfl, rfl, rfl, rfl⟩
+
 theorem demo_reachable : ∃ s, Reachable s ∧ s.lockHist = [c2, c1, c0] :=
   let ⟨s, h, hl, _⟩ := demo_runs
   ⟨s, ⟨0, demo, h⟩, hl⟩
